@@ -232,6 +232,31 @@ def rule_pairing(ctx: Ctx) -> None:
                   "a path commits the borrowed amount without registering the loan", key_text="register post-dominates")
 
 
+def rule_loan_amount(ctx: Ctx, rule: str = "C02.4") -> None:
+    """The loan a lending strategy creates carries exactly the amount that was asked for: LoanManager credits loan.borrowed_amount, and
+    OrderManager._borrow relies on the loan covering the whole shortfall it computed (premise of lemma L2 in C07)."""
+    base = "basana.backtesting.lending.base.LendingStrategy"
+    n = 0
+    for cls in ctx.facts.subclasses(base):
+        fn = ctx.repo.funcs.get(f"{cls}.create_loan")
+        if fn is None or cls == base:
+            continue
+        ctx.analysed_funcs.add(fn.qualname)
+        amount = fn.params[2]
+        ctors = [c for r in C.walk_shallow(fn.node) if isinstance(r, ast.Return) and r.value is not None for c in [r.value] if isinstance(c, ast.Call)]
+        if not ctors:
+            continue        # NoLoans: every path raises (C10.1)
+        n += 1
+        rewritten = [s for s in A.stores(fn) if isinstance(s.target, ast.Name) and s.target.id == amount]
+        passed = all(any(A.dotted(a) == amount for a in list(c.args) + [k.value for k in c.keywords]) for c in ctors)
+        ctx.check(passed and not rewritten, rule, f"{cls.rsplit('.', 1)[-1]}.create_loan lends exactly the amount requested", fn,
+                  rewritten[0].stmt if rewritten else ctors[0], f"Loan(..., {amount}, ...) with '{amount}' never reassigned",
+                  f"the loan is created for a different amount than requested ('{amount}' is {'reassigned' if rewritten else 'not passed on'}): an "
+                  "auto-borrow order is lent less than the shortfall it computed, the hold placed afterwards is refused and the loan granted for "
+                  "the rejected order stays open", key_text=f"loan amount {cls}")
+    ctx.floor(rule, "lending strategies that create loans", n, 1)
+
+
 def rule_refuse_fill(ctx: Ctx) -> None:
     po = ctx.func(f"{OM}._process_order")
     ups = [c for c in A.func_calls(po) if (A.call_name(c) or "") == "self._update_balances"]
@@ -260,5 +285,6 @@ def run(ctx: Ctx) -> None:
     rule_installed(ctx)
     rule_cells(ctx)
     rule_pairing(ctx)
+    rule_loan_amount(ctx)
     rule_refuse_fill(ctx)
     ctx.assume("initial balances are non-negative (negative initial balances create borrowed amounts without loans: outside the quantifier)")
